@@ -647,10 +647,14 @@ func (f *field) pattern() string {
 			}
 		} else {
 			b.WriteString(s)
-			if s != "" {
+			// the backslashes at the end of s escape each other; if s is
+			// made of backslashes only, the first one may be escaped by
+			// what came before
+			n := len(s) - len(strings.TrimRight(s, `\`))
+			if n < len(s) {
 				esc = false
 			}
-			for j := len(s) - 1; j >= 0 && s[j] == '\\'; j-- {
+			if n%2 == 1 {
 				esc = !esc
 			}
 		}
